@@ -463,6 +463,14 @@ func (it *Interp) handleTopPanic(e *GoPanic) {
 		it.R.addInconclusive("panic path with undecided feasibility: " + e.Msg + " at " + e.Where)
 		return
 	}
+	// A Go *runtime* error (nil dereference, index out of range ...) raised inside a dependency - typically SDK keeper code
+	// running on the zero-value keeper a harness did not stub - says something about the harness, not about the code under
+	// test: inconclusive, never a verdict. Runtime errors raised in the repository's own code, and explicit panic(...) calls
+	// anywhere, stay violations.
+	if strings.HasPrefix(e.Msg, "runtime error:") && (!strings.Contains(e.Where, "("+it.P.RepoDir+"/") || strings.Contains(e.Where, "("+it.P.RepoDir+"/zzverif/")) {
+		it.R.addInconclusive("runtime panic inside a dependency (a keeper the harness does not stub?): " + e.Msg + " at " + e.Where)
+		return
+	}
 	m := it.model()
 	it.R.addViolation(&Violation{Harness: it.R.Harness, Msg: "panic: " + e.Msg, Kind: "panic", Model: m, Where: e.Where, Trace: append([]int{}, it.trace...), Params: it.params})
 }
